@@ -149,7 +149,7 @@ def _unstack_failure_cases(
         return pd.DataFrame(columns=["column", "index", "failure_case"])
     return pd.DataFrame(
         {
-            "column": pd.Series(failure_cases.columns)
+            "column": pd.Series(failure_cases.columns.to_flat_index())
             .repeat(n_rows)
             .reset_index(drop=True),
             "index": pd.Series(list(index) * n_columns),
